@@ -133,6 +133,73 @@ PLANS = {
         ],
         trusted_base=['pyvc (this repository)', 'z3 5.1'],
     ),
+    'C04': dict(
+        specs=[], contracts=[], targets=[], bounded=['bounded.c04_macros.run'], level='exploration',
+        native_per_fn={'quick': 0, 'thorough': 0},
+        rule='see coverage.bounded[0].rule',
+        assumptions=[
+            "bounded stand-in only: the property relates two code paths of ~130 macro classes (eval / get_proof_term) "
+            "through the whole checker; the run-time contract applies both to the same (rule, arguments, premises) and "
+            "checks the expansion with theory.check_proof at check_level 0",
+            "inputs for which the evaluation raises or the expansion is not produced (raises) are outside the property "
+            "and only counted; macros of level 0 (nat/int/real_eval, *_const_ineq, z3, sympy) are trusted oracles at the "
+            "default level and are covered by C05 / C06",
+        ],
+        trusted_base=['kernel checker (C01/C02 contracts)', 'own generators'],
+    ),
+    'C11': dict(
+        specs=[], contracts=[], targets=[], bounded=['bounded.c11_items.run'], level='exploration',
+        native_per_fn={'quick': 0, 'thorough': 0},
+        rule='see coverage.bounded[0].rule',
+        assumptions=[
+            "bounded stand-in only: the side conditions of Definition.parse are syntactic tests on parsed terms; the "
+            "harness re-derives them independently (own free-variable / type-variable / overlap analysis) for every "
+            "accepted definition of the library and of an adversarial family; extension typing is checked on a scratch "
+            "copy of the theory, round trips as server.monitor.check_theory makes them",
+            "conservativity itself (a definition satisfying the side conditions cannot introduce inconsistency) is the "
+            "standard HOL argument and is not re-proved; Fun / Inductive / Datatype items are axiomatic by design and only "
+            "their extension typing and round trips are checked",
+        ],
+        trusted_base=['kernel type checker', 'own analysis'],
+    ),
+    'C12': dict(
+        specs=[], contracts=[], targets=[], bounded=['bounded.c12_loading.run'], level='exploration',
+        native_per_fn={'quick': 0, 'thorough': 0},
+        rule='see coverage.bounded[0].rule',
+        assumptions=[
+            "bounded stand-in only: the property quantifies over process histories (import order, caches, file system); "
+            "every scenario runs in a fresh subprocess and is compared with the fresh load by a digest of theory.thy.data",
+            "file modification and the import cycle are exercised in a scratch copy of the working tree (removed "
+            "afterwards); only the master user's library is exercised",
+        ],
+        trusted_base=['own scenario scripts'],
+    ),
+    'C14': dict(
+        specs=[], contracts=[], targets=[], bounded=['bounded.c14_search.run'], level='exploration',
+        native_per_fn={'quick': 0, 'thorough': 0},
+        rule='see coverage.bounded[0].rule',
+        assumptions=[
+            "bounded stand-in only: search / apply agreement is a relation between two methods of ~18 classes over "
+            "mutable proof states; checked at the states reached by the C13 editing sessions",
+            "parameters that a method declares and a suggestion leaves open are supplied by the harness (fresh names, a "
+            "context variable of the bound variable's type); suggestions for which no such parameter exists are skipped",
+        ],
+        trusted_base=['own generators'],
+    ),
+    'C18': dict(
+        specs=[], contracts=[], targets=[], bounded=['bounded.c18_verit.run'], level='exploration',
+        native_per_fn={'quick': 0, 'thorough': 0},
+        rule='see coverage.bounded[0].rule',
+        assumptions=[
+            "bounded stand-in only: ~85 rule evaluations, each an ad-hoc syntactic test; 'semantic consequence' is "
+            "decided by z3 on an own encoding (propositional structure, equality, uninterpreted functions, linear "
+            "integer / real arithmetic), 3 s per query, 'unknown' is never a violation",
+            "rules with special argument formats are covered only where a dedicated generator exists (th_resolution, "
+            "la_generic, equality chains); refl, let, bind, sko_ex, sko_forall, onepoint, forall_inst, subproof and the "
+            "quantifier rules (qnt_*) are NOT exercised",
+        ],
+        trusted_base=['z3 5.1', 'own encoding'],
+    ),
     'C06': dict(
         specs=[], contracts=[], targets=[], bounded=['bounded.c06_solvers.run'], level='exploration',
         native_per_fn={'quick': 0, 'thorough': 0},
